@@ -327,7 +327,7 @@ mod proofs {
 
     // send_reset on a stream whose opening HEADERS are still queued (waiting for a concurrency slot):
     // the HEADERS stay in front, the RST_STREAM is queued right behind them (never RST on an idle stream).
-    // @harness id=send_send_reset_pending_open props=C17,C04,C08 kind=complete tier=thorough fn=Send::send_reset timeout=3000
+    // @harness id=send_send_reset_pending_open props=C17,C04,C08 kind=complete tier=attempt fn=Send::send_reset timeout=3000
     #[kani::proof]
     #[kani::unwind(3)]
     fn send_send_reset_pending_open() {
@@ -417,7 +417,7 @@ mod proofs {
 
     // WINDOW_UPDATE overflow on a stream => that stream is reset with FLOW_CONTROL_ERROR (stream error,
     // other streams unaffected), the error is returned.
-    // @harness id=send_recv_stream_window_update_overflow props=C09,C02,C17,C08 kind=complete tier=thorough fn=Send::recv_stream_window_update timeout=3000
+    // @harness id=send_recv_stream_window_update_overflow props=C09,C02,C17,C08 kind=complete tier=attempt fn=Send::recv_stream_window_update timeout=3000
     #[kani::proof]
     #[kani::unwind(3)]
     fn send_recv_stream_window_update_overflow() {
